@@ -7,7 +7,8 @@
        POST /reshaper with a consumer whose "allocations" are {} re-reads that consumer's rows, which fills the
        request's resource class cache; its write transaction resolves the classes of the new inventories from that
        cache; a DELETE /resource_classes/{name} (of a class no inventory refers to yet) committing in between leaves
-       an inventory of a class that is gone (C08c_ri_refuted_reshape_vs_class_delete: 2 requests, 6 transactions).
+       an inventory of a class that is gone (C08c_ri_refuted_reshape_vs_class_delete: 2 requests, 7 transactions - the
+       cache load is a reader transaction of its own, ACacheLoad).
        Model/Conc.v has no cache (its transaction always looks at the class table) and answers 400 there
        (C08c_conc_reshape_thread_lacks_cache); ConcAll.ACached carries the cache.
    Under the hypothesis race_free = no_reshape_class_delete_race, which excludes exactly that pair of requests (no
@@ -601,13 +602,6 @@ Proof.
   apply existsb_exists. exists x. split; [exact Hx|apply Z.eqb_refl].
 Qed.
 
-Lemma cache_after_wipe_cases d snap rows :
-  cache_after_wipe d snap rows = snap \/ cache_after_wipe d snap rows = Some (rcs d).
-Proof.
-  unfold cache_after_wipe. destruct rows; [left; reflexivity|]. destruct snap as [s|]; [|right; reflexivity].
-  destruct (forallb _ _); [left|right]; reflexivity.
-Qed.
-
 
 (* ================================================================ 3. provider create / update / delete *)
 Lemma rp_update_rpk d me name np al d' : rp_update d me name np al = Ok d' -> rpk d' = rpk d.
@@ -705,10 +699,16 @@ Definition cached_inv (d : db) (snap : option (list (Z * Z))) (t : tstate) : Pro
 
 Definition tinv' (t : tthread) : Prop :=
   match t with TTOther t0 => cinv t0 | _ => True end.
+(* about to load the cache: for a reshaper this is a consumer being wiped *)
+Definition load_inv (t : tstate) : Prop :=
+  alloc_state t /\ objs_ok t /\
+  (forall x, actx_of t = Some x -> x_kind x = KReshape -> (has_wipe (x_all x) = true -> W) /\ W).
 Definition ainv (d : db) (t : athread) : Prop :=
   match t with
   | ATree t0 => tinv' t0
   | ACached snap t0 => cached_inv d snap t0
+  | ACacheLoad t0 => load_inv t0
+  | ADelLoad t0 => cinv t0
   | ARcDelLook _ | ARcDestroy _ => ~ W
   | _ => True
   end.
@@ -813,20 +813,17 @@ Proof.
       [destruct (tstep _ d) as [d1 t1] eqn:Et; eapply Hplain; [reflexivity|symmetry; exact E]|].
     destruct w as [k|k a];
       [|destruct (tstep _ d) as [d1 t1] eqn:Et; eapply Hplain; [reflexivity|symmetry; exact E]].
-    destruct (tstep (TObjs x ks (WWipe k :: rest) objs) d) as [d1 t1] eqn:Et. inj E.
+    destruct (tstep (TObjs x ks (WWipe k :: rest) objs) d) as [d1 t1] eqn:Et.
     destruct (cached_plain_step d snap _ d1 t1 Hri Hi Et) as [H1 [[G1 [G2 G3]] H3]].
-    split; [exact H1|]. split; [|exact H3]. cbn [ainv]. split; [exact G1|split; [exact G2|]].
-    intros x' Hx' Hk. destruct (G3 x' Hx' Hk) as [Hw Hs]. split; [exact Hw|].
-    destruct (cache_after_wipe_cases d snap (wipe_list d (co_uuid k))) as [->| ->]; [exact Hs|].
-    right.
+    destruct (cache_misses snap (wipe_list d (co_uuid k))); inj E;
+      (split; [exact H1|]); (split; [|exact H3]); [|cbn [ainv]; split; [exact G1|split; [exact G2|exact G3]]].
+    cbn [ainv]. split; [exact G1|split; [exact G2|]].
+    intros x' Hx' Hk. destruct (G3 x' Hx' Hk) as [Hw _]. split; [exact Hw|].
     (* the context of the next state is x, and the head of the work list says that x wipes *)
     destruct Hi as [_ [Ho _]]. cbn [objs_ok] in Ho. inversion Ho as [|? ? Hhead _]; subst. cbn [wipe_ok] in Hhead.
     assert (Ex : x' = x).
     { destruct (tstep_good d (TObjs x ks (WWipe k :: rest) objs) d1 t1 x Ho eq_refl Et) as [_ [_ G]]. apply G. exact Hx'. }
-    subst x'. split; [apply Hw; exact Hhead|].
-    assert (Hr : rcs d1 = rcs d) by (pose proof (tstep_rcs (TObjs x ks (WWipe k :: rest) objs) d) as Hc;
-                                      rewrite Et in Hc; exact Hc).
-    rewrite (stale_rows_same d d1 _ Hr). apply stale_rows_fresh.
+    subst x'. apply Hw. exact Hhead.
   - (* TMain *)
     destruct Hi as [_ [_ Hc]].
     assert (Hst : x_kind x = KReshape -> stale_rows d snap = []).
@@ -848,6 +845,15 @@ Proof.
   intros Hri Hi E. destruct t; try (eapply cached_step_inv; eassumption); cbn [astep] in E; cbn [ainv] in Hi.
   - (* ATree *) destruct (ttstep cf t d) as [t1 d1] eqn:Et. inj E.
     exact (ttstep_inv cf d t t1 d1 Hri Hi Et).
+  - (* ACacheLoad *) inj E. split; [exact Hri|]. split; [|apply keeps_refl].
+    destruct Hi as [G1 [G2 G3]]. cbn [ainv]. split; [exact G1|split; [exact G2|]].
+    intros x Hx Hk. destruct (G3 x Hx Hk) as [Hw HW]. split; [exact Hw|]. right. split; [exact HW|apply stale_rows_fresh].
+  - (* ADelRead *)
+    destruct (tstep (TDelRead c) d) as [d1 t1] eqn:Et. inj E.
+    pose proof (tstep_rcs (TDelRead c) d) as Hr. rewrite Et in Hr. cbn [fst] in Hr.
+    destruct (tstep_RI d (TDelRead c) d1 t1 Hri I Et) as [H1 H2].
+    split; [exact H1|]. split; [|apply keeps_eq; exact Hr]. destruct (tdone t1); exact H2.
+  - (* ADelLoad *) inj E. split; [exact Hri|]. split; [exact Hi|apply keeps_refl].
   - (* ATraitsRead *)
     destruct (find_rp d u) as [me|]; [|inj E; fin Hri].
     destruct (negb (g =? rp_gen me)); inj E; fin Hri.
@@ -951,6 +957,27 @@ Proof.
   apply IH; assumption.
 Qed.
 
+(* the coarser granularity: a slot is one or two steps of the same thread *)
+Lemma a_step_thread_coarse_inv cf i ts d ts' d' : RI2 d -> Forall (ainv d) ts ->
+  a_step_thread_coarse cf i ts d = (ts', d') -> RI2 d' /\ Forall (ainv d') ts'.
+Proof.
+  intros Hri Hf E. unfold a_step_thread_coarse in E.
+  destruct (nth_error ts i) as [t|]; [|inj E; split; assumption].
+  destruct (loads t); [|eapply a_step_thread_inv; eassumption].
+  destruct (a_step_thread cf i ts d) as [ts1 d1] eqn:E1.
+  destruct (a_step_thread_inv cf i ts d ts1 d1 Hri Hf E1) as [H1 H2].
+  eapply a_step_thread_inv; eassumption.
+Qed.
+
+Lemma a_run_sched_coarse_inv cf : forall s ts d, RI2 d -> Forall (ainv d) ts ->
+  RI2 (snd (a_run_sched_coarse cf s ts d)).
+Proof.
+  induction s as [|i s IH]; intros ts d Hri Hf; cbn [a_run_sched_coarse]; [exact Hri|].
+  destruct (a_step_thread_coarse cf i ts d) as [ts1 d1] eqn:E.
+  destruct (a_step_thread_coarse_inv cf i ts d ts1 d1 Hri Hf E) as [H1 H2].
+  apply IH; assumption.
+Qed.
+
 (* what the requests must satisfy for their initial threads to satisfy the invariant *)
 Definition req_ok (r : req) : Prop :=
   (forall v ri al, r = Reshape v ri al -> has_wipe al = true -> W) /\ (forall v n, r = RcDelete v n -> ~ W).
@@ -1039,6 +1066,17 @@ Proof.
   - apply init_threads_inv. exact Hno.
 Qed.
 
+(* the same for schedulers that do not stop at the cache loads (a_run_sched_coarse) *)
+Theorem C08c_ri_all_schedules_coarse_partial :
+  forall cf reqs s d, RI d -> Forall (fun r => req_wf r = true) reqs -> race_free reqs ->
+    RI (snd (a_run_sched_coarse cf s (map (ainit cf) reqs) d)).
+Proof.
+  intros cf reqs s d Hri _ Hno. apply RI_RI2.
+  apply (a_run_sched_coarse_inv (wiping_reshape_in reqs) cf s (map (ainit cf) reqs) d).
+  - apply RI_RI2. exact Hri.
+  - apply init_threads_inv. exact Hno.
+Qed.
+
 (* readable instances of the hypothesis *)
 Definition is_reshape (r : req) : bool := match r with Reshape _ _ _ => true | _ => false end.
 Definition is_rc_delete (r : req) : bool := match r with RcDelete _ _ => true | _ => false end.
@@ -1100,8 +1138,8 @@ Definition statuses (ts : list athread) : list Z :=
    provider 1 with 8 VCPU, consumer 7 holding 1 VCPU there, custom class 10000 (CUSTOM_X) without inventory.
    thread 0: POST /reshaper {inventories of 1: VCPU and CUSTOM_X; allocations: {7: {"allocations": {}}}}
    thread 1: DELETE /resource_classes/CUSTOM_X
-   schedule: 0 reads the provider, 0 reads the consumer, 0 re-reads the rows of 7 (their class ids are translated:
-   the cache now holds CUSTOM_X -> 10000), 1 looks CUSTOM_X up, 1 destroys it (no inventory refers to it), 0 runs
+   schedule: 0 reads the provider, 0 reads the consumer, 0 re-reads the rows of 7, 0 loads the class table into its
+   cache to translate their class ids (the cache now holds CUSTOM_X -> 10000), 1 looks CUSTOM_X up, 1 destroys it (no inventory refers to it), 0 runs
    its transaction, resolves CUSTOM_X from its cache and stores an inventory of a class that is gone *)
 Definition rs_vcpu : inv_in := mkInvIn 0 8 0 1 8 1 1 0.
 Definition rs_cust : inv_in := mkInvIn 10000 8 0 1 8 1 1 0.
@@ -1111,7 +1149,7 @@ Definition rs_setup : list req :=
 Definition rs_d0 : db := run cf0 db0 rs_setup.
 Definition rs_reqs : list req :=
   [Reshape 30 [mkRinvIn 1 2 [rs_vcpu; rs_cust]] [mkConsIn 7 [] (Some 5) (Some 6) (Some 1) None]; RcDelete 37 1000].
-Definition rs_sched : list nat := [0; 0; 0; 1; 1; 0]%nat.
+Definition rs_sched : list nat := [0; 0; 0; 0; 1; 1; 0]%nat.
 
 Example C08c_ex_reshape_class_delete_race :
   let conc := a_exec cf0 rs_reqs rs_sched rs_d0 in
@@ -1141,17 +1179,20 @@ Qed.
 (* the other schedules of the same two requests: the delete first -> the reshape reloads the table inside its
    transaction, 400; the reshape first -> the delete re-counts the inventories, 409 *)
 Example C08c_ex_reshape_class_delete_other_orders :
-  statuses (fst (a_exec cf0 rs_reqs [0; 0; 1; 1; 0; 0]%nat rs_d0)) = [400; 204] /\
-  ri_b (snd (a_exec cf0 rs_reqs [0; 0; 1; 1; 0; 0]%nat rs_d0)) = true /\
-  statuses (fst (a_exec cf0 rs_reqs [0; 0; 0; 0; 1; 1]%nat rs_d0)) = [204; 409] /\
-  ri_b (snd (a_exec cf0 rs_reqs [0; 0; 0; 0; 1; 1]%nat rs_d0)) = true.
+  statuses (fst (a_exec cf0 rs_reqs [0; 0; 1; 1; 0; 0; 0]%nat rs_d0)) = [400; 204] /\
+  ri_b (snd (a_exec cf0 rs_reqs [0; 0; 1; 1; 0; 0; 0]%nat rs_d0)) = true /\
+  (* the delete between the re-read of the rows and the cache load: the load no longer sees the class *)
+  statuses (fst (a_exec cf0 rs_reqs [0; 0; 0; 1; 1; 0; 0]%nat rs_d0)) = [400; 204] /\
+  ri_b (snd (a_exec cf0 rs_reqs [0; 0; 0; 1; 1; 0; 0]%nat rs_d0)) = true /\
+  statuses (fst (a_exec cf0 rs_reqs [0; 0; 0; 0; 0; 1; 1]%nat rs_d0)) = [204; 409] /\
+  ri_b (snd (a_exec cf0 rs_reqs [0; 0; 0; 0; 0; 1; 1]%nat rs_d0)) = true.
 Proof. vm_compute. repeat split; reflexivity. Qed.
 
 (* Model/Conc.v's thread (no cache: the transaction always looks at the class table) answers 400 on the racy
    schedule - the real application answers 204 and stores the dangling inventory *)
 Example C08c_conc_reshape_thread_lacks_cache :
   let ts := [ATree (TTOther (tinit cf0 (nth 0 rs_reqs (RpDelete 0)))); ainit cf0 (RcDelete 37 1000)] in
-  let conc := a_run_sched cf0 rs_sched ts rs_d0 in
+  let conc := a_run_sched cf0 [0; 0; 0; 1; 1; 0]%nat ts rs_d0 in
   statuses (fst conc) = [400; 204] /\ ri_b (snd conc) = true.
 Proof. vm_compute. split; reflexivity. Qed.
 
@@ -1407,50 +1448,85 @@ Proof.
 Qed.
 
 (* allocation writes: the thread with the class cache, run alone, is the thread of Model/Conc.v (nothing in the
-   cache goes stale without interference) *)
+   cache goes stale without interference); a cache load is a step of its own, so a Conc step costs at most two *)
 Lemma astep_cached_alone cf d snap t : stale_rows d snap = [] ->
-  exists snap1, astep cf (ACached snap t) d = (ACached snap1 (snd (tstep t d)), fst (tstep t d)) /\
-                stale_rows (fst (tstep t d)) snap1 = [].
+  (exists snap1, astep cf (ACached snap t) d = (ACached snap1 (snd (tstep t d)), fst (tstep t d)) /\
+                 stale_rows (fst (tstep t d)) snap1 = []) \/
+  astep cf (ACached snap t) d = (ACacheLoad (snd (tstep t d)), fst (tstep t d)).
 Proof.
   intro Hs. pose proof (tstep_rcs t d) as Hr.
-  assert (Hplain : exists snap1, (let '(d', t') := tstep t d in (ACached snap t', d')) =
+  assert (Hplain : (exists snap1, (let '(d', t') := tstep t d in (ACached snap t', d')) =
                                   (ACached snap1 (snd (tstep t d)), fst (tstep t d)) /\
-                                 stale_rows (fst (tstep t d)) snap1 = []).
-  { exists snap. destruct (tstep t d) as [d1 t1]. cbn [fst snd] in *. split; [reflexivity|].
+                                 stale_rows (fst (tstep t d)) snap1 = []) \/
+                   (let '(d', t') := tstep t d in (ACached snap t', d')) = (ACacheLoad (snd (tstep t d)), fst (tstep t d))).
+  { left. exists snap. destruct (tstep t d) as [d1 t1]. cbn [fst snd] in *. split; [reflexivity|].
     rewrite (stale_rows_same d d1 snap Hr). exact Hs. }
   destruct t; try exact Hplain.
   - (* TObjs *) destruct todo as [|w rest]; [exact Hplain|]. destruct w as [k|k a]; [|exact Hplain].
-    cbn [astep]. exists (cache_after_wipe d snap (wipe_list d (co_uuid k))).
-    destruct (tstep (TObjs x ks (WWipe k :: rest) objs) d) as [d1 t1]. cbn [fst snd] in *.
-    split; [reflexivity|]. rewrite (stale_rows_same d d1 _ Hr).
-    destruct (cache_after_wipe_cases d snap (wipe_list d (co_uuid k))) as [->| ->];
-      [exact Hs|apply stale_rows_fresh].
-  - (* TMain *) cbn [astep tstep]. rewrite (main_txn_cached_plain snap x ks objs d Hs). exists snap.
+    cbn [astep]. destruct (tstep (TObjs x ks (WWipe k :: rest) objs) d) as [d1 t1]. cbn [fst snd] in *.
+    destruct (cache_misses snap (wipe_list d (co_uuid k))); [right; reflexivity|left].
+    exists snap. split; [reflexivity|]. rewrite (stale_rows_same d d1 _ Hr). exact Hs.
+  - (* TMain *) left. cbn [astep tstep]. rewrite (main_txn_cached_plain snap x ks objs d Hs). exists snap.
     destruct (main_txn x ks objs d) as [d1|e] eqn:E; cbn [fst snd]; (split; [reflexivity|]); [|exact Hs].
     rewrite (stale_rows_same d d1 snap (main_txn_rcs _ _ _ _ _ E)). exact Hs.
 Qed.
 
-Theorem a_serial_cached :
-  forall cf k snap t d, stale_rows d snap = [] ->
-    exists snap', a_run_thread cf k (ACached snap t) d =
-                  (ACached snap' (snd (run_thread k t d)), fst (run_thread k t d)).
+Lemma a_run_thread_finished cf k t d r : a_done t = Some r -> a_run_thread cf k t d = (t, d).
+Proof. intro H. destruct k; [reflexivity|]. cbn [a_run_thread]. rewrite H. reflexivity. Qed.
+
+Lemma a_run_thread_more cf : forall n ta da tf df r,
+  a_run_thread cf n ta da = (tf, df) -> a_done tf = Some r -> a_run_thread cf (S n) ta da = (tf, df).
 Proof.
-  intros cf. induction k as [|k IH]; intros snap t d Hs; [exists snap; reflexivity|].
-  cbn [a_run_thread a_done run_thread].
-  destruct (tdone t) as [r|] eqn:Et.
-  - destruct t; try discriminate. exists snap. reflexivity.
-  - destruct (astep_cached_alone cf d snap t Hs) as [snap1 [E1 E2]]. rewrite E1.
-    destruct (tstep t d) as [d1 t1] eqn:Est. cbn [fst snd] in *.
-    destruct (IH snap1 t1 d1 E2) as [snap' E']. exists snap'. rewrite E'.
-    destruct t; try reflexivity. discriminate.
+  induction n as [|n IH]; intros ta da tf df r E Hd.
+  - cbn [a_run_thread] in E. injection E as -> ->. cbn [a_run_thread]. rewrite Hd. reflexivity.
+  - cbn [a_run_thread] in E. change (a_run_thread cf (S (S n)) ta da) with
+      (match a_done ta with Some _ => (ta, da) | None => let '(t', d') := astep cf ta da in a_run_thread cf (S n) t' d' end).
+    destruct (a_done ta); [exact E|]. destruct (astep cf ta da) as [tb db]. eapply IH; eassumption.
+Qed.
+
+Theorem a_serial_cached :
+  forall cf k snap t d r, stale_rows d snap = [] -> snd (run_thread k t d) = TDone r ->
+    exists snap', a_run_thread cf (2 * k) (ACached snap t) d = (ACached snap' (TDone r), fst (run_thread k t d)).
+Proof.
+  intros cf. induction k as [|k IH]; intros snap t d r Hs Hd.
+  - cbn [run_thread snd fst] in *. subst t. exists snap. reflexivity.
+  - replace (2 * S k)%nat with (S (S (2 * k))) by lia. cbn [run_thread] in Hd |- *.
+    destruct (tdone t) as [r0|] eqn:Et.
+    + destruct t; try discriminate. cbn [snd fst] in *. injection Hd as <-. exists snap. reflexivity.
+    + assert (Hrun : run_thread (S k) t d = let '(d', t') := tstep t d in run_thread k t' d')
+        by (destruct t; try reflexivity; discriminate).
+      cbn [run_thread] in Hrun. rewrite Hrun in *. clear Hrun.
+      cbn [a_run_thread a_done]. rewrite Et.
+      destruct (astep_cached_alone cf d snap t Hs) as [[snap1 [E1 E2]]|E1]; rewrite E1;
+        destruct (tstep t d) as [d1 t1] eqn:Est; cbn [fst snd] in *.
+      * destruct (IH snap1 t1 d1 r E2 Hd) as [snap' E']. exists snap'.
+        (* one unit of fuel to spare *)
+        eapply a_run_thread_more; [exact E'|reflexivity].
+      * cbn [a_run_thread a_done astep].
+        assert (E2 : stale_rows d1 (Some (rcs d1)) = []) by apply stale_rows_fresh.
+        exact (IH (Some (rcs d1)) t1 d1 r E2 Hd).
 Qed.
 
 Corollary a_serial_alloc :
-  forall cf k r d, (match r with AllocPut _ _ | AllocPost _ _ | Reshape _ _ _ => True | _ => False end) ->
-    exists snap', a_run_thread cf k (ainit cf r) d =
-                  (ACached snap' (snd (run_thread k (tinit cf r) d)), fst (run_thread k (tinit cf r) d)).
+  forall cf k r d rs, (match r with AllocPut _ _ | AllocPost _ _ | Reshape _ _ _ => True | _ => False end) ->
+    snd (run_thread k (tinit cf r) d) = TDone rs ->
+    exists snap', a_run_thread cf (2 * k) (ainit cf r) d =
+                  (ACached snap' (TDone rs), fst (run_thread k (tinit cf r) d)).
 Proof.
-  intros cf k r d Hr. destruct r; try contradiction; cbn [ainit]; apply a_serial_cached; reflexivity.
+  intros cf k r d rs Hr Hd. destruct r; try contradiction; cbn [ainit]; apply a_serial_cached; try reflexivity; exact Hd.
+Qed.
+
+(* DELETE /allocations/{c}: after the read (and, when there are rows, the cache load) the thread is Conc's *)
+Theorem a_serial_alloc_delete :
+  forall cf k c d,
+    a_run_thread cf (S (S k)) (ainit cf (AllocDelete c)) d =
+    match wipe_list d c with
+    | [] => (ATree (TTOther (TDone (err 404 C_DEFAULT))), d)
+    | _ => a_run_thread cf k (ATree (TTOther (snd (tstep (TDelRead c) d)))) d
+    end.
+Proof.
+  intros cf k c d. cbn [ainit a_run_thread a_done astep tstep].
+  destruct (wipe_list d c) as [|q rows]; cbn [tdone a_run_thread a_done tt_done astep snd]; reflexivity.
 Qed.
 
 (* every other request: the thread is the ConcTree thread, run alone it is ConcTree.tt_run_thread *)
@@ -1627,9 +1703,17 @@ Example C08c_ex_sched_agrees :
                       [ []; []; []; []; []; []; []; []; []; []; []; [] ]) = true /\
   a_sched_agrees cf0 (ta_setup, ta_reqs, [0; 1; 1; 2; 2; 3; 3; 3; 0], [404; 204; 201; 200],
                       [ [[1; 11; 1; -1; 1]]; []; []; []; []; []; []; []; [[100000]]; []; []; [[1; 100000]] ]) = true /\
-  a_sched_agrees cf0 (rs_setup, rs_reqs, [0; 0; 0; 1; 1; 0], [204; 204],
+  a_sched_agrees cf0 (rs_setup, rs_reqs, [0; 0; 0; 0; 1; 1; 0], [204; 204],
                       [ [[1; 11; 5; -1; 1]]; [[1; 0; 8; 0; 1; 8; 1; 1; 0]; [1; 10000; 8; 0; 1; 8; 1; 1; 0]]; []; [];
                         [[5]]; [[6]]; []; []; []; []; []; [] ]) = true.
+Proof. vm_compute. repeat split; reflexivity. Qed.
+
+(* the coarser granularity (resource_classes is not a scheduling table): the cache load runs in the slot of the
+   reshaper's write transaction, so the racing DELETE /resource_classes can only come before both: 400 *)
+Example C08c_ex_coarse_granularity :
+  let conc := a_run_sched_coarse cf0 [0; 0; 0; 1; 1; 0]%nat (map (ainit cf0) rs_reqs) rs_d0 in
+  statuses (fst conc) = [400; 204] /\ ri_b (snd conc) = true /\
+  fst (a_sched_result_coarse cf0 rs_setup rs_reqs [0; 0; 0; 0; 1; 1]) = [204; 409].
 Proof. vm_compute. repeat split; reflexivity. Qed.
 
 (* ================================================================ assumptions *)
@@ -1648,10 +1732,13 @@ Print Assumptions ainv_anote.
 Print Assumptions a_step_raw_inv.
 Print Assumptions a_step_thread_inv.
 Print Assumptions a_run_sched_inv.
+Print Assumptions a_run_sched_coarse_inv.
 Print Assumptions ainit_inv.
 Print Assumptions ri_b_spec.
 Print Assumptions a_run_sched_app.
+Print Assumptions a_run_thread_more.
 Print Assumptions C08c_ri_all_schedules_partial.
+Print Assumptions C08c_ri_all_schedules_coarse_partial.
 Print Assumptions C08c_ri_all_schedules_no_reshape.
 Print Assumptions C08c_ri_all_schedules_no_class_delete.
 Print Assumptions C08c_ri_every_prefix_partial.
@@ -1681,6 +1768,7 @@ Print Assumptions a_serial_traits_set.
 Print Assumptions a_serial_aggs_set.
 Print Assumptions a_serial_cached.
 Print Assumptions a_serial_alloc.
+Print Assumptions a_serial_alloc_delete.
 Print Assumptions a_serial_tree.
 Print Assumptions a_serial_rp.
 Print Assumptions C08c_ex_class_delete_refused.
@@ -1704,3 +1792,4 @@ Print Assumptions C08c_ex_reshape_without_wipe.
 Print Assumptions C08c_ex_trait_deletes_RI.
 Print Assumptions C08c_ex_prefix.
 Print Assumptions C08c_ex_sched_agrees.
+Print Assumptions C08c_ex_coarse_granularity.
